@@ -89,6 +89,11 @@ def rand_case(rng, D, hi, smax=3, dom=None):
         c = dict(m=m, n=n, s=None if rng.random() < 0.15 else [rng.randint(1, smax) for _ in range(D)], mode=mode,
                  mc=mc, ci=ci, co=co, b=rng.choice([[], [], [2], [2], [1, 2]]) if D < 3 else rng.choice([[], [2]]),
                  cplx=rng.random() < 0.8)
+        # mixed dtypes (real data with complex filter, complex output-side array with real filter, …):
+        # "real or complex values" of the statement; a mixed call may be rejected with a TypeError (numpy
+        # refuses to add a complex term into a real accumulator) but must never drop an imaginary part silently
+        if rng.random() < 0.3:
+            c["mix"] = rng.choice([[0, 1, 1], [1, 0, 1], [0, 0, 1], [1, 1, 0], [0, 1, 0], [1, 0, 0]])
         d = domain(c)
         if dom is not None and d != dom:
             continue
@@ -122,7 +127,8 @@ def rand_arr(rng, shape, cplx):
 
 def make_inputs(c, rng):
     dsh, fsh = shapes(c)
-    return dict(d=rand_arr(rng, dsh, c["cplx"]), f=rand_arr(rng, fsh, c["cplx"]), y=rand_arr(rng, ysh_of(c), c["cplx"]))
+    cd, cf, cy = c.get("mix") or [c["cplx"]] * 3
+    return dict(d=rand_arr(rng, dsh, cd), f=rand_arr(rng, fsh, cf), y=rand_arr(rng, ysh_of(c), cy))
 
 
 # ---- protocol -------------------------------------------------------------------------------------
@@ -301,9 +307,10 @@ def deser(cc):
             for t in s.split(","):
                 p = t.split(";")
                 vals.append(complex(int(p[0]), int(p[1]) if len(p) > 1 else 0))
-        a = np.array(vals, dtype=np.complex128).reshape(sh)
-        return a if c["cplx"] else a.real.copy()
-    return c, dict(d=arr(cc["d"], dsh), f=arr(cc["f"], fsh), y=arr(cc["y"], ysh_of(c)))
+        return np.array(vals, dtype=np.complex128).reshape(sh)
+    cd, cf, cy = c.get("mix") or [c["cplx"]] * 3
+    fix = lambda a, cx: a if cx else a.real.copy()
+    return c, dict(d=fix(arr(cc["d"], dsh), cd), f=fix(arr(cc["f"], fsh), cf), y=fix(arr(cc["y"], ysh_of(c)), cy))
 
 
 def _run(ctx, cases, stream, rng, vias=None):
@@ -340,6 +347,9 @@ def _run(ctx, cases, stream, rng, vias=None):
                 impl = canon(np.reshape(got, norm_shape(c, op)) if layer == "mc1" else got)
             except Exception as e:  # noqa
                 impl = err(e)
+                if c.get("mix") and isinstance(e.__cause__ or e, TypeError) or (c.get("mix") and isinstance(e, TypeError)):
+                    ctx.count("mixed-dtype-rejected")   # rejected, not computed: nothing to compare
+                    continue
             want = model
             if via != "fn":
                 # Linop contract (hand-written): the constructor calls _get_convolve_params and rejects a
@@ -457,6 +467,8 @@ def check_one(ctx, c, x, op, via, origin):
     except Exception as e:  # noqa
         if dom == "filter-longer":
             return True  # rejected
+        if c.get("mix") and (isinstance(e, TypeError) or isinstance(e.__cause__, TypeError)):
+            return True  # mixed dtypes rejected with a casting error (not silently wrong)
         ctx.fail(key_of(c, op, via), "%s (%s) raised %s on a shape combination it must compute" % (op, via, type(e).__name__),
                  case, observed=repr(e), expected="result", origin=origin)
         return False
